@@ -423,14 +423,14 @@ BASE_TRUSTED = [
 ]
 
 
-def standard_proof_phase(chk, pid, gen_needed=(), extra_targets=()):
+def standard_proof_phase(chk, pid, gen_needed=None, extra_targets=()):
     """translate + build + Print Assumptions + hygiene.  Returns True iff all proofs check."""
     from harness import translate
     chk.trusted = list(BASE_TRUSTED)
     ok = True
     # 1. translate
     try:
-        info = translate.run(only=gen_needed or None)
+        info = translate.run(only=gen_needed) if gen_needed is not None else translate.run()
         chk.oblige("translate:" + ",".join(sorted(info)) if info else "translate", True, json.dumps(info)[:400])
         chk.notes["translated"] = info
     except translate.TranslateError as e:
@@ -474,6 +474,33 @@ def standard_proof_phase(chk, pid, gen_needed=(), extra_targets=()):
     if hits:
         ok = False
     return ok
+
+
+def extra_props_phase(chk, name):
+    """A second statements file of a property (e.g. Props/C01_batch.v): build it, re-check it with
+    coqc, record its theorems and Print Assumptions like standard_proof_phase does."""
+    target = f"theories/Props/{name}.vo"
+    try:
+        b = build([target])
+        chk.oblige("make " + target, True, json.dumps(b))
+        out = coqc_file(f"theories/Props/{name}.v")
+        thms, examples, printed = props_info(name)
+        closed, axioms = parse_assumptions(out)
+        for t in thms:
+            chk.oblige("theorem " + t, True, "checked by coqc")
+        for t in examples:
+            chk.oblige("example " + t, True, "non-vacuity / witness, checked by coqc")
+        missing = [t for t in thms if t not in printed]
+        chk.oblige(f"Print Assumptions under every theorem of {name}", not missing, "missing: %s" % missing)
+        pa = chk.notes.setdefault("print_assumptions_extra", {})
+        pa[name] = {"closed_under_global_context": closed, "axiom_blocks": axioms, "theorems": thms}
+        if axioms:
+            chk.trusted.append(f"axioms reported by Print Assumptions in {name}: " + " | ".join(axioms))
+        return True
+    except BuildError as e:
+        chk.oblige(f"coqc Props/{name}.v", False, str(e))
+        chk.tie_broken(f"theorem {e.theorem} ({e.file}:{e.line})", e.log[-1500:])
+        return False
 
 
 # ------------------------------------------------------------------------------------------------
